@@ -165,10 +165,44 @@ pub fn run_mt(args: &MtArgs) -> Outcome {
             }));
         }
         let mut panicked = 0;
+        // liveness (C14: writers always proceed eventually): the client threads of a run finish
+        // within seconds; a thread that is still running after the watchdog period is stuck
+        // (write stall that never ends, journal mutex never released, ...)
+        let (jtx, jrx) = std::sync::mpsc::channel();
+        let n_threads = handles.len();
         for h in handles {
-            if h.join().is_err() {
-                panicked += 1;
+            let jtx = jtx.clone();
+            std::thread::spawn(move || {
+                let _ = jtx.send(h.join().is_err());
+            });
+        }
+        let deadline = std::time::Instant::now() + std::time::Duration::from_secs(90);
+        let mut finished = 0;
+        while finished < n_threads {
+            let left = deadline.saturating_duration_since(std::time::Instant::now());
+            match jrx.recv_timeout(left) {
+                Ok(p) => {
+                    finished += 1;
+                    if p {
+                        panicked += 1;
+                    }
+                }
+                Err(_) => break,
             }
+        }
+        if finished < n_threads {
+            fjall::verif::trace_stop();
+            let ev = fjall::verif::trace_take();
+            all.extend(ev);
+            std::fs::write(&trace_path, all.join("\n") + "\n").ok();
+            out.behaviours += 1;
+            out.violations.push(json!({"replay": trace_path.to_string_lossy(), "step": run,
+                "first": format!("{} of {n_threads} client threads did not finish within 90 s in run {run} (writers blocked for ever; sealed memtables a = {}, b = {})",
+                    n_threads - finished, kss[0].sealed_memtable_count(), kss[1].sealed_memtable_count())}));
+            // the stuck threads own handles of the database: leave everything behind
+            std::mem::forget(kss);
+            std::mem::forget(db);
+            return out;
         }
         // final content: get and iter of every cell
         for (i, ks) in kss.iter().enumerate() {
